@@ -96,9 +96,13 @@ def run(rep, tier):
                 "Combine(conj, disj, implies-left, implies-right, iff) from the atom shapes (x < 0, 0 <= x, x < y + 1, x - 1 < x, "
                 "(x - y) + y = x, ...) at nat, at int and at nat seen through of_nat::nat=>real, i.e. with binders in positive and negative "
                 "positions; every goal is replayed through z3wrapper.solve, implications also through Z3Macro.eval with premises, every 7th "
-                "through the proof checker; plus deterministic families (truncated minus, abs/min/max/if, of_nat, real division, "
-                "predicates/sets over 'a, bool) under every single binder and negation, the repository's own test goals, seeded random "
-                "closed goals; SymPy: polynomial identities and off-by-one non-identities as = and ~=, rational functions, inequalities, "
+                "through the proof checker, every 3rd goal with a free variable also with its binders NAMED like that free variable; plus "
+                "deterministic families (truncated minus, every order relation, abs/min/max/if, of_nat, real division, predicates/sets "
+                "over 'a, bool, true/false, xor, intervals, EQUALITY AT FUNCTION TYPES between function variables / lambda terms / partial "
+                "applications as premise and conclusion, positive and negated) under every single binder and negation, the repository's "
+                "own test goals, seeded random closed goals; HISTORY: goals whose conclusion cannot be translated are tried with premises, "
+                "and every step that raises is followed in the same process by its premises as goals of their own; SymPy (every interval "
+                "goal asked on the open and on the closed interval with the same end points one after the other, in both orders): polynomial identities and off-by-one non-identities as = and ~=, rational functions, inequalities, "
                 "interval premises with grid end points, seeded random rewritings. Non-trivial = the step ACCEPTED the goal and the "
                 "TLA+ meaning decided it (T or F) under at least one assignment; distinct by (solver, goal, premises)." % (3 if quick else 4))
     rep.assumptions = [
@@ -106,7 +110,9 @@ def run(rep, tier):
         "carriers of size 1 and 2 for 'a; a goal valid on these sub-domains but invalid in HOL is not detected",
         "existentially-effective integer binders are decided only for difference-logic bodies, over the witness interval argued in "
         "C06_Sem.tla and checked by TLC (B vs 2B) on the whole universe; other such binders make the goal 'not examined'",
-        "transcendental functions, functions over nat/int/real, lambda terms, more than 4 free variables: recorded, never judged",
+        "function variables over number types range over the 4 tables on {0, 1} with values {0, 1} extended by 0 (a sub-family of the "
+        "functions: sound for refutation); equality of lambda terms over number types is only refuted, never confirmed",
+        "transcendental functions, functions of two arguments, more than 4 free variables: recorded, never judged",
         "Z3 is given 1.5 s per goal by the driver (an unanswered goal counts as not solved)",
         "TLC/SANY, lib/Rat.tla exact rationals within 31 bits, the structural projection in harness/drivers/c06.py, CPython",
     ]
